@@ -7,5 +7,7 @@ for k in range(1,int(K)):
     if os.path.exists(mp): prev.append(json.load(open(mp))['needs_to_manifest'])
 out=subprocess.run(['/verif/tools/mkseed.sh',P,K],capture_output=True,text=True).stdout.strip()
 extra="\n\nAdditional requirement for this attempt: earlier attempts at this property already changed the library as follows (described by what they need to manifest) — " + "; ".join('"%s"'%p for p in prev) + ". Produce a change of a DIFFERENT kind in a DIFFERENT function or mechanism (another entry point, another backend or element type, another part of the property statement), and prefer one that only manifests after a longer history or a multi-step sequence (e.g. state that drifts only after an element has expired from the window, a cached value that is stale only after a particular sequence, an interaction between two call sites), or only for an unusual but in-scope parameter combination.\n"
+if int(K) >= 4:
+    extra += "\nFor this attempt prefer, in this order: (a) a change made of TWO cooperating edits in two different functions or files that each look harmless alone (e.g. a helper whose contract is loosened plus a caller that relied on it; a default value changed in one place and a guard removed in another), (b) a change that only manifests for a rarely used element type (f32, i64, Option<i32>, bool, String), output type (f32, i32, Option<f64>) or backend (VecDeque used as a ring buffer, a strided or reversed ndarray view, Arc<...>, the option view) while f64 / Vec behave as before, (c) a change in shared plumbing (tea-core iterators, collectors, the null / cast algebra) whose effect on this property is indirect.\n"
 open(out,'a').write(extra)
 print(out)
